@@ -22,6 +22,48 @@ CHECKS = {
  "C11": (MC, "lockstep product model checking of bounded expression trees with AutoVar leaves and AutoVar switch operands",
    "C02's enumeration with 1-2 leaves replaced by AutoVar calls of 6 config kinds; the preamble command, every operand read and every body command are observable events compared on every path",
    "expected preamble text follows the statement rendering rule that C10 checks separately"),
+ "C06": (EX, "bounded-exhaustive enumeration of files with inline arguments against a generator-side naming/sharing model",
+   "every file with up to N inline text / moves() arguments over 3 owners, 11 datum kinds and 8 contexts; argument labels, label contents, sharing, per-owner numbering and clash errors are compared with the generator's expectation",
+   "naming rule <owner>_Text_<n> / <owner>_Movement_<n> in order of first appearance is the reference model"),
+ "C07": (EX, "bounded-exhaustive enumeration of texts x fonts x every parameter value against an independent token-stream oracle",
+   "every atom sequence up to length L (words, multi-byte, control codes, spacing, explicit breaks) x 2 synthetic fonts x every maxLineLength x numLines x cursorOverlap through the exported FormatText, plus a cross-product of format() spellings compiled end to end",
+   "the oracle's reading of 'line shows the prompt' and 'does not fit' is stated in DESIGN.md C07"),
+ "C08": (EX, "bounded-exhaustive enumeration of mapscripts statements with a differential oracle (inline body vs. the same body as a script statement)",
+   "every mapscripts statement with up to N entries over plain / inline / table entries; header, tables and terminators are compared with the generator's expectation and every inline script with the standalone compilation of its body",
+   "behaviour of script statements themselves is C01's business"),
+ "C09": (EX, "bounded-exhaustive enumeration of string contents x part splits x types x origins",
+   "every content up to length L over 11 characters split into 1-3 parts, 4 string types, 8 origins (text statement, inline, format(), poryswitch cases); directives, per-line payloads and the single terminator are compared with the generator's expectation",
+   "format() origins use the exported FormatText for the line split (C07 checks its content)"),
+ "C10": (EX, "bounded-exhaustive enumeration of argument token sequences against the generator's rendering",
+   "every in-domain argument token sequence up to length L over a 22-token alphabet, 5 command names, 5 contexts; the whole emitted file is compared byte for byte",
+   "domain: no empty arguments, inline data only as whole arguments"),
+ "C12": (EX, "bounded-exhaustive metamorphic enumeration: poryswitch program vs. the program with the selected case written out",
+   "every poryswitch with 1-3 case labels in every order, colon/brace forms, every content assignment incl. nested poryswitches, in 8 positions x 4 switch values; outputs compared byte for byte with generator-side selection",
+   "selection rule (matching label, else '_') is the generator's"),
+ "C13": (EX, "metamorphic enumeration over definition sets x use sites with line markers on",
+   "8 definition sets x every single use site, every pair (thorough: triple) and all sites at once over 19 documented positions + 8 non-positions + use-before-definition + redefinition; outputs compared byte for byte incl. line markers",
+   "values with parentheses / non-identifiers are only used where they can be written out literally"),
+ "C14": (EX, "bounded-exhaustive enumeration of movement and mart lists against the generator's expansion",
+   "every movement list up to L elements over 42 element kinds (steps x multipliers incl. boundary and invalid ones, poryswitch segments) in statement and moves() form, every mart list up to M items",
+   "expected expansion is computed by the generator"),
+ "C15": (EX, "exhaustive finite product of statement kinds x scope modifiers x generated label kinds",
+   "3^5 modifier assignments x label modifier x order x optimize; every label definition of the output is classified by the naming scheme and checked against the documented scope",
+   "naming scheme identifies generated labels"),
+ "C16": (EX, "bounded-exhaustive layout enumeration over a construct corpus with a position-map oracle",
+   "6 corpus programs covering every marker-emitting construct x every layout with up to k inserted line breaks / blank lines / comments; transparency, path, and marker line within the construct's source extent",
+   "the extent reading of 'line on which the construct was written' is stated in DESIGN.md C16"),
+ "C17": (MC, "deviation-bounded schedule exploration over instrumented map iterations + exhaustive bounded history enumeration + context enumeration",
+   "every range-over-map of the repository is routed through a scheduler by an overlay generated at check time; all schedules with <= d deviating choice points, every history of <= k compilations vs. fresh-process baselines, every statement among <= m neighbours",
+   "assumes map iteration order and process history are the compiler's only nondeterminism (no goroutines / clocks / randomness in the code)"),
+ "C18": (EX, "bounded-exhaustive token-sequence, deviation and character-string enumeration in watchdog-supervised worker subprocesses",
+   "every token sequence up to L after 29 context prefixes, every single deviation of 10 seed programs (thorough: pairs), every character string up to N over 23 characters, each under a covering set of configurations in normal and lint mode; panics, hangs, worker deaths, unlocated errors and lint/normal disagreement are violations",
+   "covering set of configurations rather than the full matrix; hang = no progress for 10 s confirmed alone"),
+ "C19": (EX, "bounded-exhaustive character-string and lexeme-sequence enumeration with generator-free position and gap-variation oracles",
+   "every string up to N characters over 19 characters and every sequence up to M lexemes of a 65-lexeme alphabet: every token's reported position must locate its lexeme, and replacing any gap between tokens by any of 9 separators must keep the token sequence; corpus programs must compile to the same output",
+   "lexeme of STRING / RAWSTRING found by a small independent scanner"),
+ "C20": (EX, "exhaustive enumeration of nesting chains x injections with a line oracle",
+   "every nesting chain up to depth d under 3 roots x 15 injections, plus name-clash programs derived from the compiler's own output; each ill-formed program must be rejected with the error on the offending line",
+   "one statement per line identifies the construct"),
 }
 ENGINE_PROPS = sorted(CHECKS)
 def main():
